@@ -45,6 +45,16 @@ def gen_text_inputs(ctx):
     out += list(G.random_strings(rng, G.EXT, 4000 if quick else 40000, 4, 12))
     out += list(G.random_strings(rng, G.PRINTABLE_POOL + ['\n', ' ', ' '], 3000 if quick else 30000, 1, 30))
     out += list(G.random_texts(rng, 2000 if quick else 20000))
+    # indentation family: three lines with every combination of indentation / blank-line width 0..5,
+    # optionally wrapped in blank lines (the region where normalisation does its work)
+    for i1 in range(6):
+        for w in range(6):
+            for i2 in range(6):
+                core_t = ' ' * i1 + 'a\n' + ' ' * w + '\n' + ' ' * i2 + 'b'
+                out.append(core_t)
+                if (i1 + w + i2) % 3 == 0:
+                    out.append('\n' + core_t + '\n  ')
+                    out.append(core_t.replace(' ', '\t'))
     for c in G.bmp_chars():
         out.append(c)
     for c in G.bmp_chars():
